@@ -13,6 +13,7 @@ from typing import (
 )
 
 import numpy as np
+import onnx
 import onnx_ir as ir
 
 import onnxscript
@@ -140,13 +141,18 @@ def make_value(
 
 
 def _snapshot_constant(value: Any) -> Any:
-    """Copy a numpy array referenced as a script-time constant.
+    """Copy a numpy array or TensorProto referenced as a script-time constant.
 
-    ir.tensor() wraps an array without copying it, so a later in-place mutation of the
-    caller's array would otherwise change the protos generated from the function.
+    ir.tensor() wraps an array or a TensorProto without copying it, so a later in-place
+    mutation of the caller's object would otherwise change the protos generated from
+    the function.
     """
     if isinstance(value, np.ndarray):
         return value.copy()
+    if isinstance(value, onnx.TensorProto):
+        copied = onnx.TensorProto()
+        copied.CopyFrom(value)
+        return copied
     return value
 
 
